@@ -97,6 +97,14 @@ fn approx_rational(divident: i128, divisor: i128) -> (i128, u8) {
         magn_coeff += 1;
         coeff = coeff * 10 + quot;
     }
+    #[cfg(fpdec_verif)]
+    fpdec_core::verif_cov::hit(if rem == 0 {
+        24
+    } else if n_frac_digits >= MAX_N_FRAC_DIGITS {
+        25
+    } else {
+        26
+    });
     // round coeff (half to even):
     // remainder > divisor / 2 or
     // remainder = divisor / 2 and coeff is odd
